@@ -22,6 +22,9 @@
 //
 // op:  run <kind> <steer> <cancel> <workers> <queue> <shards> <bmax> <bwaitUs> <prod> <per> <mode> <closeAt> <closeDlUs> <hdlUs> <seed>
 //      kind  bp|bbp|wq|mb        steer none|wc|wn (mailbox window, close in between / not) |sc|sn (submit select)
+//                                |sl (pools: <per> independent rounds, fresh pool each, of: hold one Submit at its FIRST
+//                                 ctx.Done() — after the closed check, before slot/lock — Close completely, release;
+//                                 the log of the first round with a stranded task, else of the last round, is returned)
 //                                |dd|dn (mailbox: item admitted in the drain window, its handler blocked, another item
 //                                 submitted meanwhile — must not start a second drain; dn = same without the hold)
 //      cancel bit 1 = CancelAcceptedOnClose + hook, bit 2 = CancelRunningOnClose   mode try|wait
@@ -86,6 +89,10 @@ func genC37(g *Gen) {
 			emit("mb", "dd", 0, 2+i%2, 4, 1+i%2, 1+i%2, 0, 1, 1+i, "try", 0, 0, 0)
 			emit("mb", "dn", 0, 2+i%2, 4, 1+i%2, 1+i%2, 0, 1, 1+i, "try", 0, 0, 0)
 		}
+		// the pre-lock window of the two pools, 64 rounds each (two random select choices per round)
+		emit("bp", "sl", 0, 2, 4, 1, 1, 0, 1, 64, "try", 0, 0, 0)
+		emit("bp", "sl", 0, 1, 4, 1, 1, 0, 1, 64, "wait", 0, 0, 0)
+		emit("bbp", "sl", 0, 2, 4, 1, 2, 0, 1, 64, "try", 0, 0, 0)
 		emit("bbp", "sc", 0, 1, 4, 1, 2, 0, 1, 2, "try", 0, 0, 0)
 		emit("bbp", "sn", 1, 1, 4, 1, 2, 0, 1, 2, "try", 0, 0, 0)
 	}
@@ -710,6 +717,72 @@ func (s *c37Scn) ran(t int) bool {
 	return false
 }
 
+// runSubmitLoop: <per> independent rounds on fresh pools.  In each round one Submit is held at its first
+// ctx.Done() (inside acquireSlot: after the closed check, before the slot and before any admission lock),
+// Close runs to completion (signalled, not slept for), the Submit is released.  Whatever the two random
+// select choices, a Submit that returns nil must have its task run.  Stops at the first stranded task.
+func (s *c37Scn) runSubmitLoop() string {
+	rounds := s.per
+	if rounds < 1 {
+		rounds = 1
+	}
+	var last *c37Log
+	for r := 0; r < rounds; r++ {
+		rs := &c37Scn{kind: s.kind, steer: s.steer, mode: s.mode, cancel: s.cancel, workers: s.workers, queue: s.queue, shards: 1, bmax: s.bmax,
+			bwait: 0, seed: c37mix(s.seed, uint64(r)), log: newC37Log()}
+		rs.gateTask.Store(-1)
+		if err := rs.build(nil); err != nil {
+			return "bad-op"
+		}
+		last = rs.log
+		hold := newC37Hold(rs.log, 2*time.Second)
+		_ = rs.doSubmit(context.Background(), 0, false)
+		hold.armed.Store(true)
+		yctx := &c37Ctx{Context: context.Background(), at: 1, fn: hold.reach}
+		subDone := make(chan error, 1)
+		go func() { subDone <- rs.doSubmit(yctx, 1, rs.mode == "wait") }()
+		engaged := false
+		var subErr error
+		finished := false
+		select {
+		case <-hold.engaged:
+			engaged = true
+		case subErr = <-subDone:
+			finished = true
+		case <-time.After(2 * time.Second):
+			rs.log.add('T', 0, 0)
+		}
+		closed := make(chan struct{})
+		go func() { rs.doClose(context.Background()); close(closed) }()
+		if engaged {
+			t := time.NewTimer(300 * time.Millisecond) // Close does not depend on the held Submit here; bound anyway
+			select {
+			case <-closed:
+			case <-t.C:
+			}
+			t.Stop()
+		}
+		hold.free()
+		if !finished {
+			subErr = <-subDone
+		}
+		<-closed
+		if subErr == nil { // accepted: it must run (it cannot, if Close already returned); look briefly, never assert on time
+			deadline := time.Now().Add(20 * time.Millisecond)
+			for time.Now().Before(deadline) && !rs.ran(1) {
+				time.Sleep(200 * time.Microsecond)
+			}
+			if !rs.ran(1) {
+				break
+			}
+		}
+	}
+	if last == nil {
+		return "bad-op"
+	}
+	return last.render()
+}
+
 // runSubmitSelect: hold one Submit right before its final select (after the closed
 // check and the slot acquisition); (sc) Close completely meanwhile, or (sn) not.
 func (s *c37Scn) runSubmitSelect(hold *c37Hold) {
@@ -804,13 +877,16 @@ func (*c37Runner) Step(op string) string {
 	if s.prod*s.per > 256 || s.workers < 1 || s.queue < 1 || s.shards < 1 {
 		return "bad-op"
 	}
-	okSteer := map[string][]string{"bp": {"none", "sc", "sn"}, "bbp": {"none", "sc", "sn"}, "wq": {"none"}, "mb": {"none", "wc", "wn", "dd", "dn"}}
+	okSteer := map[string][]string{"bp": {"none", "sc", "sn", "sl"}, "bbp": {"none", "sc", "sn", "sl"}, "wq": {"none"}, "mb": {"none", "wc", "wn", "dd", "dn"}}
 	valid := false
 	for _, st := range okSteer[s.kind] {
 		valid = valid || st == s.steer
 	}
 	if !valid {
 		return "bad-op"
+	}
+	if s.steer == "sl" {
+		return s.runSubmitLoop()
 	}
 	var hold *c37Hold
 	var obs *c37MailboxObserver
